@@ -142,6 +142,9 @@ class Schema:
         lines = ["CREATE TYPE status AS ENUM ('open', 'closed');"]
         if any(t.startswith("s1.") for t in names):
             lines.insert(0, "CREATE SCHEMA s1;")
+            if rng.random() < 0.5:
+                # a type of the same name next to the table: an unqualified `status` still means public.status
+                lines.insert(1, "CREATE TYPE s1.status AS ENUM ('draft', 'sent');")
         for t, cols in self.tables.items():
             defs = []
             for c in cols:
@@ -159,6 +162,8 @@ class Schema:
             if cands:
                 t = rng.choice(cands)
                 lines.append("CREATE SCHEMA archive;")
+                if rng.random() < 0.5:
+                    lines.append("CREATE TYPE archive.status AS ENUM ('kept', 'purged');")
                 lines.append("ALTER TABLE %s SET SCHEMA archive;" % t)
                 cols = self.tables.pop(t)
                 self.tables["archive." + t] = cols
